@@ -473,3 +473,23 @@ func init() {
 		},
 	})
 }
+
+// Corpus calls emit with the source text of every generated program whose
+// nesting depth is at most maxDepth (reused by C14 as an execution corpus; the
+// programs run in the environment of lib/irrun).
+func Corpus(c *common.Ctx, maxDepth int, emit func(src string)) {
+	seen := map[string]bool{}
+	for _, j := range jobs(c) {
+		for _, sp := range j.specs() {
+			if len(sp.Ws) > maxDepth {
+				continue
+			}
+			pr, err := build(sp)
+			if err != nil || seen[pr.src] {
+				continue
+			}
+			seen[pr.src] = true
+			emit(pr.src)
+		}
+	}
+}
